@@ -438,12 +438,33 @@ def r01_8(ctx):
     """the listener predicate (`is_on`) is Vue's isOn: /^on[^a-z]/ — `on` followed by a byte that is not an ASCII lowercase letter, and nothing else"""
     r = Rule("R01.8", "the listener predicate is Vue's `isOn` (/^on[^a-z]/): the first two bytes are `on`, the third is not an ASCII lower-case letter, and the answer depends on nothing else",
              "listener keys such as `on:click`, `on-foo` or `onUpdate:modelValue` are no longer recognised: repeated ones are not merged (the later one is dropped) and their hydration hint is lost")
-    b = C.role_or_fail(ctx, r, "on_pred")
-    if not b:
-        return r
-    r.saw(b["path"])
+    fnb = C.role(ctx, "on_pred")
+    sites = []
+    if fnb:
+        sites = [(fnb, fnb)]
+    else:
+        # the helper may have been written out at its call site(s): the byte pattern `[b'o', b'n', c, ..]` of a match / if-let / matches!
+        for hb_ in ctx.facts.user_hir():
+            for n in walk(hb_["body"]):
+                if n.get("k") in ("Match", "LetExpr", "If") and n.get("k") != "If":
+                    pats = [a.get("pat") for a in n.get("arms", [])] if n.get("k") == "Match" else [n.get("pat")]
+                    if any(isinstance(x, dict) and x.get("k") == "PSlice" and [y.get("v") for y in walk(x) if y.get("k") == "PLit" and y.get("lit") == "byte"][:2] == [111, 110]
+                           for p_ in pats if isinstance(p_, dict) for x in walk(p_)):
+                        sites.append((hb_, {"k": "Block", "body": n, "path": hb_["path"]}))
+        if not sites:
+            C.role_or_fail(ctx, r, "on_pred")
+            return r
+    for fn_, b in sites:
+        if b is not fnb:
+            b = {"body": b["body"], "path": fn_["path"], "crate": fn_["crate"], "name": fn_.get("name"), "_host": fn_}
+        _r01_8_site(ctx, r, fn_, b, "" if fnb else " (written in place in %s)" % fn_["path"])
+    return r
+
+
+def _r01_8_site(ctx, r, host, b, suffix):
+    r.saw(host["path"])
     strs = sorted({const_str(n) for n in walk(b["body"]) if isinstance(const_str(n), str)})
-    r.ob("the only string the predicate compares with is `on`", set(strs) <= {"on"}, C.mloc(b, b), "string constants %s" % strs if strs else "no string constant (byte pattern)")
+    r.ob("the only string the predicate compares with is `on`" + suffix, set(strs) <= {"on"}, C.mloc(host, b['body'] if isinstance(b.get('body'), dict) and b['body'].get('sp') else host), "string constants %s" % strs if strs else "no string constant (byte pattern)")
     params = {p_.get("id") for p_ in walk(b.get("params", [])) if isinstance(p_, dict) and p_.get("k") == "PBind"} if b.get("params") else set()
     other = []
     preds = []
@@ -463,7 +484,7 @@ def r01_8(ctx):
                 preds.append((n["method"], bool(par is not None and par.get("k") == "Unary" and par.get("op") == "!"), n))
             elif rc is not None and rc.get("k") == "Path" and (rc.get("res") or {}).get("r") == "local" and (not params or rc["res"].get("id") in params) and n["method"] not in ON_PARAM_METHODS and rc.get("ty", "").replace("&", "").strip() in ("str", "alloc::string::String", "swc_atoms::Atom"):
                 other.append(n["method"])
-    r.ob("nothing but the leading bytes of the name is consulted", not other, C.mloc(b, b), "no further method on the name" if not other else "the name is also passed to %s" % sorted(set(other)))
+    r.ob("nothing but the leading bytes of the name is consulted" + suffix, not other, C.mloc(host, b['body'] if isinstance(b.get('body'), dict) and b['body'].get('sp') else host), "no further method on the name" if not other else "the name is also passed to %s" % sorted(set(other)))
     ranges = [n for n in walk(b["body"]) if n.get("k") == "PRange"]
     good = [p_ for p_ in preds if p_[0] == "is_ascii_lowercase" and p_[1]]
     bad = [p_ for p_ in preds if not (p_[0] == "is_ascii_lowercase" and p_[1])]
@@ -471,10 +492,10 @@ def r01_8(ctx):
     negated = any(n.get("k") == "Unary" and n.get("op") == "!" for n in walk(b["body"])) or "=>False" in txt_b
     # the same test written with the byte range: `!(b'a'..=b'z').contains(c)`, `!matches!(c, b'a'..=b'z')`, `b'a'..=b'z' => false`
     ok = bool(good) and not bad or (not preds and "97" in txt_b and "122" in txt_b and negated)
-    r.ob("third byte: `not an ASCII lower-case letter`", ok, C.mloc(b, (bad or good or [(0, 0, b)])[0][2]),
+    r.ob("third byte: `not an ASCII lower-case letter`" + suffix, ok, C.mloc(host, (bad or good or [(0, 0, host)])[0][2]),
          "`!c.is_ascii_lowercase()`" if ok else ("the test on the third byte is %s: `on:click`, `on-foo`, `on_x` (not upper case, not lower case) change sides" % [("!" if p_[1] else "") + p_[0] for p_ in preds] if preds else "no recognised test on the third byte"))
     pats = [n for n in walk(b["body"]) if n.get("k") == "PLit" and n.get("lit") == "byte"]
-    r.ob("first two bytes: `o`, `n`", [p_.get("v") for p_ in pats][:2] == [111, 110] or "on" in strs, C.mloc(b, b), "byte pattern %s" % [p_.get("v") for p_ in pats] if pats else "starts_with(\"on\")")
+    r.ob("first two bytes: `o`, `n`" + suffix, [p_.get("v") for p_ in pats][:2] == [111, 110] or "on" in strs, C.mloc(host, b['body'] if isinstance(b.get('body'), dict) and b['body'].get('sp') else host), "byte pattern %s" % [p_.get("v") for p_ in pats] if pats else "starts_with(\"on\")")
     return r
 
 
